@@ -203,7 +203,7 @@ def h_recon(H):
 FIXM = os.path.join(os.path.dirname(spikeglx.__file__), "tests", "fixtures", "np2split", "NP24_meta", "_spikeglx_ephysData_g0_t0.imec0.ap.meta")
 
 
-def _mk_np24(d, rng_v, maxint, ns, values="random", rng=None, shank_perm=None):
+def _mk_np24(d, rng_v, maxint, ns, values="random", rng=None, shank_perm=None, fixm=None):
     pdir = os.path.join(d, "raw_ephys_data", "probe00")
     os.makedirs(pdir)
     ap = os.path.join(pdir, "_spikeglx_ephysData_g0_t0.imec0.ap.bin")
@@ -218,7 +218,7 @@ def _mk_np24(d, rng_v, maxint, ns, values="random", rng=None, shank_perm=None):
     else:
         D = rng.integers(-32768, 32768, size=(ns, nc), dtype=np.int16)
     D.tofile(ap)
-    with open(FIXM) as f, open(ap[:-3] + "meta", "w") as g:
+    with open(fixm or FIXM) as f, open(ap[:-3] + "meta", "w") as g:
         for line in f:
             if line.startswith("fileSizeBytes"):
                 line = f"fileSizeBytes={ns * nc * 2}\n"
@@ -239,7 +239,7 @@ def _mk_np24(d, rng_v, maxint, ns, values="random", rng=None, shank_perm=None):
     return ap, D
 
 
-def native_end_to_end(rng, rng_v, maxint, ns, window, nshank_assign):
+def native_end_to_end(rng, rng_v, maxint, ns, window, nshank_assign, stale=False):
     d = tempfile.mkdtemp(prefix="c03_")
     try:
         perm = None
@@ -252,10 +252,21 @@ def native_end_to_end(rng, rng_v, maxint, ns, window, nshank_assign):
         ap, D = _mk_np24(d, rng_v, maxint, ns, rng=rng, shank_perm=perm)
         orig_meta = open(ap[:-3] + "meta").read()
         orig_md = spikeglx.read_meta_data(ap[:-3] + "meta")
+        if stale:
+            # an earlier, different version of the recording was split here before (uncompressed outputs left behind); the split is then forced again
+            D0 = rng.integers(-32768, 32768, size=D.shape, dtype=np.int16)
+            D0.tofile(ap)
+            c0 = neuropixel.NP2Converter(ap, post_check=False, compress=False)
+            c0.init_params(nwindow=window)
+            c0.process()
+            c0.sr.close()
+            D.tofile(ap)
         conv = neuropixel.NP2Converter(ap, post_check=False, compress=False)
         conv.init_params(nwindow=window)
-        conv.process()
+        st0 = conv.process(overwrite=True) if stale else conv.process()
         bad = []
+        if st0 != 1:
+            bad.append(("process status", st0))
         cols = []
         for sh, inf in conv.shank_info.items():
             got = np.fromfile(inf["ap_file"], dtype=np.int16).reshape(-1, len(inf["chns"]))
@@ -286,7 +297,7 @@ def native_end_to_end(rng, rng_v, maxint, ns, window, nshank_assign):
 
 
 @bounded(PROPERTY, "native_end_to_end", bound="real NP2.4 files from the shipped 4-shank meta: all 65536 int16 values x the 9 catalogued range/maxint pairs (quick: 3 pairs) ; random content x "
-         "random assignments of the 384 channels to 1..4 shanks x windows {600, 1200, 30000} x ns not aligned (quick: 4 cases, thorough: 40); split bytes, per-shank reader shape, reconstruction bytes, metadata field for field",
+         "random assignments of the 384 channels to 1..4 shanks x windows {600, 1200, 30000} x ns not aligned x {fresh output folders, forced re-split over the uncompressed outputs of a different earlier recording} (quick: 4 cases, thorough: 40); split bytes, per-shank reader shape, reconstruction bytes, metadata field for field",
          clause="end-to-end bytes and metadata on real files, incl. the channel-subset string round trip")
 def b_native(B):
     gains = GAINS[:3] if B.tier == "quick" else GAINS
@@ -300,8 +311,8 @@ def b_native(B):
         ns = int(rng.integers(1300, 5000))
         window = int(rng.choice([600, 1200, 30000]))
         nsh = [2, None, 1, 3, 4][t % 5]
-        bad = native_end_to_end(rng, rng_v, maxint, ns, window, nsh)
-        B.case(("e2e", t, ns, window, nsh), not bad, detail=bad[:4], inputs={"kind": "e2e", "ns": ns, "window": window, "nshanks": nsh})
+        bad = native_end_to_end(rng, rng_v, maxint, ns, window, nsh, stale=(t % 2 == 1))
+        B.case(("e2e", t, ns, window, nsh, "over stale outputs" if t % 2 else "fresh"), not bad, detail=bad[:4], inputs={"kind": "e2e", "ns": ns, "window": window, "nshanks": nsh})
     # savedChans subset string <-> channel list
     rec = neuropixel.NP2Reconstructor.__new__(neuropixel.NP2Reconstructor)
     ok = True
